@@ -2,6 +2,8 @@ package main
 
 import (
 	"fmt"
+	"go/token"
+	"golang.org/x/tools/go/ssa"
 	"strings"
 )
 
@@ -9,18 +11,30 @@ func init() { props["C28"] = checkC28 }
 
 // reviewed exceptions: rule|function|callee-or-expression prefix -> reason
 var c28Reviewed = map[string]string{
-	"nil|visor.confirmedTxnsGetter.getTxnsHashes|visor/historydb.HistoryDB.GetTransaction": "the hash was just read from the address->transactions index, which HistoryDB.ParseBlock writes in the same db transaction as the transaction record (C07-R1 ownership); both reads happen in one read transaction",
-	"nil|visor.unconfirmedTxnsGetter.getTransaction|visor.UnconfirmedTransactionPool.Get":   "the hash was enumerated from the unconfirmed bucket by getTxnsHashes in the same read transaction (Visor.GetTransactions runs both inside one db.View)",
-	"nil|visor.rebuildHistoryDB$1|visor.Blockchain.GetSignedBlockBySeq":                      "seq ranges over 0..head; the chain is gap-free by C04-R3 (seq == head+1 on every append)",
-	"nil|visor.Visor.GetSignedBlocksSince$1|visor.Blockchain.GetSignedBlockBySeq":            "seq ranges over (since, head]; the chain is gap-free by C04-R3, read in one db.View",
-	"bounds|api.balanceHandler$1|iface:api.Gatewayer.GetBalanceOfAddresses":                  "Visor.GetBalanceOfAddresses returns exactly one BalancePair per requested address (built by index over addrs)",
-	"bounds|api.newCreatedTransactionFuzzy|make([]api.CreatedTransactionInput, len($0.In))":  "inputs is nil or built one-per-input from GetArray/GetUxOuts(txn.In) by Visor.VerifyTxnVerbose (NewTransactionInputs over uxa)",
+	"nil|visor.confirmedTxnsGetter.getTxnsHashes|visor/historydb.HistoryDB.GetTransaction":               "the hash was just read from the address->transactions index, which HistoryDB.ParseBlock writes in the same db transaction as the transaction record (C07-R1 ownership); both reads happen in one read transaction",
+	"nil|visor.unconfirmedTxnsGetter.getTransaction|visor.UnconfirmedTransactionPool.Get":                "the hash was enumerated from the unconfirmed bucket by getTxnsHashes in the same read transaction (Visor.GetTransactions runs both inside one db.View)",
+	"nil|visor.rebuildHistoryDB$1|visor.Blockchain.GetSignedBlockBySeq":                                  "seq ranges over 0..head; the chain is gap-free by C04-R3 (seq == head+1 on every append)",
+	"nil|visor.Visor.GetSignedBlocksSince$1|visor.Blockchain.GetSignedBlockBySeq":                        "seq ranges over (since, head]; the chain is gap-free by C04-R3, read in one db.View",
+	"bounds|api.balanceHandler$1|iface:api.Gatewayer.GetBalanceOfAddresses":                              "Visor.GetBalanceOfAddresses returns exactly one BalancePair per requested address (built by index over addrs)",
+	"bounds|api.newCreatedTransactionFuzzy|make([]api.CreatedTransactionInput, len($0.In))":              "inputs is nil or built one-per-input from GetArray/GetUxOuts(txn.In) by Visor.VerifyTxnVerbose (NewTransactionInputs over uxa)",
 	"bounds|api.walletTransactionsHandler$1|iface:api.Gatewayer.GetWalletUnconfirmedTransactionsVerbose": "GetUnconfirmedTransactionsVerbose returns the two slices in parallel (one inputs slice per transaction)",
 }
 
+// c28MustReviewed: (outermost caller -> callee) pairs of package api that call a helper containing an
+// explicit panic, each with the reason the panic cannot be driven by a request.
+var c28MustReviewed = map[string]string{
+	"api.CreatedTransaction.ToTransaction -> coin.Transaction.Hash": "used by the CLI only (cli/transaction.go), not reachable from any handler; Hash panics only if Serialize fails",
+	"api.NewCreatedTransaction -> coin.Transaction.Hash":            "the transaction was built by transaction.Create / the visor (within the encoder's maxlen limits), Serialize cannot fail",
+	"api.newCreatedTransactionFuzzy -> coin.Transaction.Hash":       "test helper for fuzzy comparison, same argument as NewCreatedTransaction",
+	"api.injectTransactionHandler -> coin.Transaction.Hash":         "the transaction was just produced by DeserializeTransactionHex, which enforces the same maxlen limits Serialize checks",
+	"api.HostCheck -> api.hostCheck":                                "hostCheck panics while the middleware is constructed (bad configured host), not per request",
+	"api.newServerMux -> api.hostCheck":                             "same: construction time",
+	"api.create -> api.newServerMux":                                "start-up: missing GUI directory panics before the server listens",
+}
+
 func checkC28(r *Run) {
-	r.Explain = "C28: (R1) nil contract over the whole module: every function that can return (nil pointer, nil error) — found by scanning returns, propagated through tail calls and interfaces (CHA) — is enumerated, and every dereference of such a result must be dominated by a nil test, be impossible because nil is returned only for a nil argument and the site passes an address, or be in the reviewed table; (R2) no explicit panic / log.Panic / Fatal statement in the HTTP handler layer (package api); panic statements reachable deeper (VTA) are counted and reported, not decided; (R3) every slice/index expression in package api is in bounds (difference-bound reasoning) or in the reviewed table."
-	r.NotDec = "hangs, dropped connections not caused by panics; the 140-odd invariant panics below the handler layer (crypto length preconditions, visor invariants) are reported in evidence, not discharged; run-time panics from nil maps / type assertions"
+	r.Explain = "C28: (R1) nil contract over the whole module: every function that can return (nil pointer, nil error) — found by scanning returns, propagated through tail calls and interfaces (CHA) — is enumerated, and every dereference of such a result must be dominated by a nil test, be impossible because nil is returned only for a nil argument and the site passes an address, or be in the reviewed table; (R2) no explicit panic / log.Panic / Fatal statement in the HTTP handler layer (package api); panic statements reachable deeper (VTA) are counted and reported, not decided; (R3) every slice/index expression in package api is in bounds (difference-bound reasoning) or in the reviewed table; (R4) every call from package api into a helper that itself contains an explicit panic (Must-style) is a reviewed (caller, callee) pair whose panic cannot be driven by a request; (R5) package api has no unchecked type assertion and no integer division by a value not shown non-zero."
+	r.NotDec = "hangs, dropped connections not caused by panics; the 140-odd invariant panics below the handler layer (crypto length preconditions, visor invariants) are reported in evidence, not discharged; run-time panics from nil-map writes; type assertions and divisions below the handler layer"
 	sites, nCalls, prods := r.P.NilContractSites()
 	r.Units["(nil,nil) producers"] = len(prods)
 	r.Units["call sites of producers"] = nCalls
@@ -104,6 +118,91 @@ func checkC28(r *Run) {
 	}
 	r.Units["bounds obligations in package api"] = tot
 	r.Check("C28-R3", "bounds: every slice/index expression of package api is discharged or reviewed", "", tot >= 300, fmt.Sprintf("%d obligations", tot))
+	// R4: calls from the handler layer into helpers that panic on their own arguments/state (Must-style):
+	// each (caller, callee) pair is in the reviewed table or reported
+	nMust := 0
+	usedMust := map[string]bool{}
+	for _, fn := range r.P.ModFns {
+		name := FnName(fn)
+		if !strings.HasPrefix(name, "api.") {
+			continue
+		}
+		for _, b := range fn.Blocks {
+			for _, in := range b.Instrs {
+				ci, ok := in.(ssa.CallInstruction)
+				if !ok {
+					continue
+				}
+				cal := ci.Common().StaticCallee()
+				if cal == nil || !InModule(cal) || cal.Blocks == nil || r.P.hasRecover(cal) {
+					continue
+				}
+				ps := r.P.explicitPanics(cal)
+				if len(ps) == 0 {
+					continue
+				}
+				nMust++
+				root := fn
+				for root.Parent() != nil {
+					root = root.Parent()
+				}
+				key := FnName(root) + " -> " + FnName(cal)
+				if rev, ok := c28MustReviewed[key]; ok {
+					usedMust[key] = true
+					r.Pass("C28-R4", key+" (reviewed)", r.P.Pos(ci.Pos()), "reviewed: "+rev)
+				} else {
+					r.Check("C28-R4", key+": the handler layer calls a helper that panics ("+trunc(ps[0].Desc, 60)+")", r.P.Pos(ci.Pos()), false, "a request-dependent argument can crash the node; return an error instead or add the pair to the reviewed table with the reason")
+				}
+			}
+		}
+	}
+	for k := range c28MustReviewed {
+		if !usedMust[k] {
+			r.Note("reviewed exception no longer needed: must|" + k)
+		}
+	}
+	r.Units["api calls into directly panicking helpers"] = nMust
+	// R5: unchecked type assertions and integer divisions by a non-constant in package api
+	nTA, nDiv := 0, 0
+	for _, fn := range r.P.ModFns {
+		name := FnName(fn)
+		if !strings.HasPrefix(name, "api.") {
+			continue
+		}
+		ff := r.P.Facts(fn)
+		for _, b := range fn.Blocks {
+			for _, in := range b.Instrs {
+				switch x := in.(type) {
+				case *ssa.TypeAssert:
+					if !x.CommaOk {
+						nTA++
+						r.Check("C28-R5", name+": unchecked type assertion "+trunc(ff.Term(x), 70), r.P.Pos(x.Pos()), false, "x.(T) without the comma-ok form panics when the dynamic type differs")
+					}
+				case *ssa.BinOp:
+					if (x.Op == token.QUO || x.Op == token.REM) && isIntegerValue(x) {
+						if _, isConst := x.Y.(*ssa.Const); isConst {
+							continue
+						}
+						nDiv++
+						iv := ff.rangeOf(x.Y, b, 0)
+						nz := iv.Lo.Sign() > 0 || iv.Hi.Sign() < 0
+						if !nz {
+							for _, a := range ff.Must(b) {
+								t := ff.Term(x.Y)
+								if a.S == t+" != 0" || a.S == "0 < "+t {
+									nz = true
+								}
+							}
+						}
+						r.Check("C28-R5", name+": divisor "+trunc(ff.Term(x.Y), 60)+" is non-zero", r.P.Pos(x.Pos()), nz, fmt.Sprintf("integer division by a value not shown non-zero panics (divisor range %s)", iv))
+					}
+				}
+			}
+		}
+	}
+	r.Units["unchecked type assertions in package api"] = nTA
+	r.Units["non-constant integer divisions in package api"] = nDiv
+	r.Pass("C28-R5", "package api scanned for unchecked type assertions and divisions", "", fmt.Sprintf("%d assertions, %d divisions", nTA, nDiv))
 	for k := range c28Reviewed {
 		if !used[k] {
 			r.Note("reviewed exception no longer needed: %s", k)
